@@ -100,6 +100,15 @@ def gen_cases(tier, seed):
                rng.choice(DESTS), rng.choice(pac_names), content=rng.choice([0, 1, 2, "zeros", "ones", "ramp"]),
                md_only=rng.random() < 0.04)
         )
+        if rng.random() < 0.15:
+            cases[-1]["busy_put"] = rng.randrange(0, 6)
+        if rng.random() < 0.25:
+            # the receiver's own configuration for this sender disagrees with what the PDUs say (checksum type, PDU CRC, closure, mode,
+            # segment length): the Metadata PDU and the PDU headers decide, not the receiver's defaults
+            c = cases[-1]["cfg"]
+            c["rc_at_dst"] = {"crc_type": rng.choice([k for k in CKSS if k != c["cks"]]), "crc_on_transmission": not c["crc"],
+                              "closure_requested": not c["closure"], "default_transmission_mode": "unack" if c["mode"] == "ack" else "ack",
+                              "max_file_segment_len": rng.choice([1, 3, 1000])}
         if rng.random() < 0.3:
             # a transaction sequence number which needs every byte of the provider's width
             sw = cases[-1]["cfg"]["seqw"]
@@ -185,7 +194,11 @@ def run_case(case):
     with World(cfg) as w:
         mon = C01Monitor(w)
         nseg = -(-cfg["size"] // max(1, case["seg_eff"]))
-        r = Runner(w, pacing=PACINGS[case["pacing"]], max_rounds=4 * nseg + 40, max_expiries=8)
+        acts = {}
+        if case.get("busy_put") is not None:
+            # while the transfer runs the user asks for another one towards a different peer: refused (busy), no effect on the running one
+            acts = {case["busy_put"]: [("put_third",)]}
+        r = Runner(w, pacing=PACINGS[case["pacing"]], max_rounds=4 * nseg + 40, max_expiries=8, actions=acts)
         try:
             ok = w.put()
             if not ok:
@@ -205,6 +218,7 @@ def run_case(case):
         # the FD PDUs seen by the receiver tile the file with the effective segment length
         obs["cases_" + cfg["mode"] + ("_closure" if cfg["closure"] else "")] = 1
         obs["pdus_delivered"] = r.delivered
+        obs["refused_put_requests_during_transfer"] = r.refused_puts
         obs["clock_advances_needed"] = r.expiries
         obs["success_reports_checked"] = mon.success_reports
         obs["metadata_only"] = int(cfg["metadata_only"])
@@ -226,4 +240,4 @@ def run_case(case):
     return {"viol": viol, "sig": sig, "obs": obs, "keys": keys, "sample": sample}
 
 
-REQUIRED = {"success_reports_checked": 100, "pdus_delivered": 1000, "transfers_on_reused_handlers": 100, "dest_dir_existing": 20, "refused_requests_before_a_valid_one": 50}
+REQUIRED = {"success_reports_checked": 100, "pdus_delivered": 1000, "transfers_on_reused_handlers": 100, "dest_dir_existing": 20, "refused_requests_before_a_valid_one": 50, "refused_put_requests_during_transfer": 50}
